@@ -71,8 +71,28 @@ func RewriteClause(decls map[ast.PredicateSym]*ast.Decl, clause ast.Clause) ast.
 			}
 			boundVars = boundVars.Extend(defVars)
 		case ast.Eq:
+			// An equality gives the variables of one side a value only if the
+			// other side already has one (constants, or variables bound earlier).
+			leftVars := make(map[ast.Variable]bool)
+			ast.AddVars(p.Left, leftVars)
+			rightVars := make(map[ast.Variable]bool)
+			ast.AddVars(p.Right, rightVars)
+			hasValue := func(vars map[ast.Variable]bool) bool {
+				for v := range vars {
+					if boundVars.Find(v) == -1 {
+						return false
+					}
+				}
+				return true
+			}
+			leftHasValue, rightHasValue := hasValue(leftVars), hasValue(rightVars)
 			m := boundVars.AsMap()
-			ast.AddVars(p, m)
+			if rightHasValue {
+				ast.AddVars(p.Left, m)
+			}
+			if leftHasValue {
+				ast.AddVars(p.Right, m)
+			}
 			boundVars = NewVarList(m)
 
 		case ast.NegAtom:
